@@ -86,7 +86,7 @@ def gen_case(rng, gpg=None, stratum=None):
                 cryp = [s for s in ivs if s in ("malleated", "bitflip", "other_payload", "other_key",
                                                  "envelope_signed", "compact_signed", "hdr_flip",
                                                  "hdr_truncated", "hdr_extended", "boundary_shift",
-                                                 "raw_sig_with_hdr")]
+                                                 "raw_sig_with_hdr", "hugehdr_garbage_sig")]
                 add(rest[0].hex, rng.choice(cryp), rest[0])
         elif filt == "shape":
             if not rest:
@@ -128,7 +128,14 @@ def gen_case(rng, gpg=None, stratum=None):
             else:
                 stratum = "sole:threshold"
         elif filt == "threshold":
-            pass
+            if rng.random() < 0.4:
+                # every authorized key has a valid entry, the threshold is still one higher (legal "draft" shape),
+                # and further (unauthorized but valid) entries follow
+                for k in auth[nvalid:]:
+                    add(k.hex, rng.choice(vs), k)
+                t = len(auth) + rng.randint(1, 2)
+                for k in outsiders[:2]:
+                    add(k.hex, rng.choice(vs), k)
     # an exact COPY of a valid entry, filed under another authorized key that has no entry of its own
     # (the copy does not verify under that key; the original must still count)
     if rng.random() < 0.3:
